@@ -87,4 +87,25 @@ TEXT.update({
     },
 })
 
+TEXT.update({
+    "C12": {
+        "level_text": "Held on every monitored pairing evaluation: exact 384-byte equality with an independent textbook pairing (generic Miller loop over Fp[w]/(w^12+2), final exponent (p^12-1)/N) incl. the Annex value and inputs with Z != 1, plus bilinearity / non-degeneracy / order identities on many more pairs.",
+        "design_ref": "DESIGN.md section 6 C12",
+        "level_note": "Trusted: textbook pairing reference anchored by GM/T 0044.5 values and by its own plain-exponent final exponentiation self-test.",
+        "technique": "runtime differential monitor of pairing values against a textbook reference + algebraic identity monitors",
+    },
+    "C13": {
+        "level_text": "Held on every monitored tower / mod-N / group operation against polynomial-basis and big-integer arithmetic; zero-component subsets, Booth digits and both fixed-base tables are enumerated exhaustively. One known finding (G2 point_equals ignores y) is recorded, not repaired.",
+        "design_ref": "DESIGN.md section 6 C13",
+        "level_note": "Trusted: Fp[w]/(w^12+2) schoolbook arithmetic and affine group law in BigUint; library internals via cfg(gm_rs_verif) constructors.",
+        "technique": "runtime differential monitor of arithmetic calls against polynomial-basis reference (finite sub-spaces exhaustive)",
+    },
+    "C16": {
+        "level_text": "Held on every monitored hash-to-range reduction (crafted quotient-edge inputs), H1/H2 evaluation and key extraction (incl. the failure case H1+k=0 and its neighbours, Annex keys) against big-integer reduction and the reference group law.",
+        "design_ref": "DESIGN.md section 6 C16",
+        "level_note": "Trusted: BigUint reduction, reference SM3, reference G1/G2.",
+        "technique": "runtime differential monitor with crafted boundary inputs",
+    },
+})
+
 NOT_APPLICABLE = []
